@@ -315,10 +315,61 @@ get_rslt_c = Contract(
     ensures=[('eos-drops-context', 'implies(result[1] is True, result[2] is None)'),
              ('no-eos-has-context', 'implies(result[1] is False, result[2] is not None and result[2][0] is not None)')])
 OUTPARAMS = {'_imethodcall': imethodcall(returns=ListOf(PARAM)), '_get_rslt_params': get_rslt_c}
+# The result classes are collections.namedtuple objects, for which the engine has no model ("no model for builtin
+# collections.namedtuple").  Work-around inside the contract: the module global is replaced (consts=...) by an external
+# callable under an assumed contract - the object it returns has the named fields with the values of the arguments.
+from pyvc.calls import VExt
+CTX = Opt(TupleOf(Opt(Str), Str))
+
+
+def namedtuple_c(name, first, qrc=False):
+    more = {'query_result_class': Opt(Ref('CIMClass'))} if qrc else {}
+    return Contract('external::' + name, sig=[first, 'eos', 'context'] + list(more), trusted=True, raises={},
+                    returns=Obj(name, **{first: ListOf(ANYCHILD)}, eos=Bool, context=CTX, **more),
+                    ensures=[('fields-are-the-arguments',
+                              'result.eos == eos and (result.context is None) == (context is None)'
+                              + (' and (result.query_result_class is None) == (query_result_class is None)' if qrc else ''))],
+                    notes='A-BUILTIN: a namedtuple constructor stores its arguments under the field names (only what the '
+                          'postconditions need is assumed: eos, and whether context / query_result_class are None)')
+
+
+TUPLES = {'pull_inst_result_tuple': Lit(VExt(namedtuple_c('pull_inst_result_tuple', 'instances'))),
+          'pull_path_result_tuple': Lit(VExt(namedtuple_c('pull_path_result_tuple', 'paths'))),
+          'pull_query_result_tuple': Lit(VExt(namedtuple_c('pull_query_result_tuple', 'instances', qrc=True)))}
 PULL_POST = [('end-of-sequence-has-no-context-otherwise-there-is-one',
               'implies(result.eos, result.context is None) and implies(not result.eos, result.context is not None)')]
-CONTRACTS.append(shell('PullInstancesWithPath', {'context': CTXARG, 'MaxObjectCount': INTARG}, PULL_POST, callees=OUTPARAMS,
-                       more_raises=['ValueError']))
+VE = ['ValueError']
+for _name in ('PullInstancesWithPath', 'PullInstancePaths', 'PullInstances'):
+    CONTRACTS.append(shell(_name, {'context': CTXARG, 'MaxObjectCount': INTARG}, PULL_POST, callees=OUTPARAMS,
+                           more_raises=VE, consts=TUPLES))
+FILTER = {'FilterQueryLanguage': STRARG, 'FilterQuery': Opt(Str), 'OperationTimeout': INTARG, 'ContinueOnError': Opt(Bool),
+          'MaxObjectCount': INTARG}
+ASSOC = {'InstanceName': INSTNAMEARG, 'AssocClass': CLSARG, 'ResultClass': Opt(Str), 'Role': STRARG, 'ResultRole': Opt(Str)}
+REFS = {'InstanceName': INSTNAMEARG, 'ResultClass': CLSARG, 'Role': STRARG}
+WITH_PROPS = {'IncludeClassOrigin': Opt(Bool), 'PropertyList': PLARG}
+for _name, _params in (
+        ('OpenEnumerateInstances', dict({'ClassName': CLSARG, 'namespace': NSARG, 'DeepInheritance': Opt(Bool)}, **WITH_PROPS, **FILTER)),
+        ('OpenEnumerateInstancePaths', dict({'ClassName': CLSARG, 'namespace': NSARG}, **FILTER)),
+        ('OpenAssociatorInstances', dict(ASSOC, **WITH_PROPS, **FILTER)),
+        ('OpenAssociatorInstancePaths', dict(ASSOC, **FILTER)),
+        ('OpenReferenceInstances', dict(REFS, **WITH_PROPS, **FILTER)),
+        ('OpenReferenceInstancePaths', dict(REFS, **FILTER))):
+    CONTRACTS.append(shell(_name, _params, PULL_POST, callees=OUTPARAMS, more_raises=VE, consts=TUPLES))
+QPARAM = ('tuple', 'str', ('opt', 'str'), ('union', R('CIMClass'), R('object')))   # (a str or None value: `x.__class__.__name__` is outside the engine's model, see ANYCHILD)
+CONTRACTS.append(shell(
+    'OpenQueryInstances', dict({'namespace': NSARG, 'ReturnQueryResultClass': Opt(Bool)}, **FILTER),
+    PULL_POST + [('query-result-class-iff-requested',
+                  'isinstance(result.query_result_class, CIMClass) if ReturnQueryResultClass else result.query_result_class is None')],
+    callees={'_imethodcall': imethodcall(returns=ListOf(QPARAM)), '_get_rslt_params': get_rslt_c}, more_raises=VE, consts=TUPLES))
+REFUTED_ON_THE_UNCHANGED_TREE.append(shell(
+    'PullInstances', {'context': TupleOf(Str, Str), 'MaxObjectCount': Opt(Int)}, PULL_POST, more_raises=VE, consts=TUPLES,
+    callees={'_imethodcall': imethodcall(returns=Opt(ListOf(PARAM))),
+             '_get_rslt_params': Contract(OPS + '_get_rslt_params', returns=RSLT, raises=PARSE_ERR, ensures=get_rslt_c.ensures,
+                                          requires=[('the-response-has-children', 'result is not None')])},
+    label='empty IMETHODRESPONSE',
+    notes='known finding C02 open-pull-empty-IMETHODRESPONSE-TypeError-in-_get_rslt_params: _imethodcall returns None for '
+          'an IMETHODRESPONSE without children and every Open.../Pull... shell hands that to _get_rslt_params, which '
+          'iterates over it: a raw TypeError caused by the server (the contracts above assume a response with children)'))
 
 # ---- the discrepancies are not loaded; to see them refuted:  C19_OPS_SHOW_REFUTED=1 ./check C19 --only <name> -v
 import os as _os
